@@ -2,7 +2,7 @@
    This file contains only the property theorems; each is closed by an exact lemma. *)
 From Coq Require Import String ZArith List Bool.
 From PB Require Import C01.Wrapper C16.SigTable C16.Bind C16.BindProofs C16.Model C16.Proofs
-  gen.GenSigs C16.TableProofs.
+  C16.PerPoint C16.PerPointProofs C16.InnerProofs gen.GenSigs C16.TableProofs.
 Import ListNotations.
 Open Scope Z_scope.
 
@@ -166,6 +166,95 @@ Theorem C16_case_table :
 Proof. exact method_names_lower. Qed.
 Print Assumptions C16_case_table.
 
+(* ---- per-point arguments (weights) as seen by the method body ---- *)
+
+(* The model interprets the translated call  _check_optional_array(size, weights, dtype=, order=, ensure_1d=, axis=)
+   and the later ravel of each _setup_* function.  1-D setups: inputs with the same denotation (any container,
+   (N,), (N,1), (1,N), layout, dtype) give the same array. *)
+Theorem C16_per_point_1d : forall e size svd (a b ra rb : nd Z),
+  su_ensure_1d e = true -> same_den a b ->
+  setup_weights e size svd a = VOk ra -> setup_weights e size svd b = VOk rb ->
+  nd_shape ra = nd_shape rb /\ forall p, 0 <= p < prodZ (nd_shape a) -> flat ra p = flat rb p.
+Proof. exact per_point_same_1d. Qed.
+Print Assumptions C16_per_point_1d.
+
+(* 2-D setups: (M, N) inputs with the same logical entries (C, Fortran, transposed or strided memory, any
+   container or dtype) give the same array, also where the setup flattens it. *)
+Theorem C16_per_point_2d : forall e size svd (a b ra rb : nd Z),
+  su_ensure_1d e = false -> nd_shape a = nd_shape b ->
+  (forall p, 0 <= p < prodZ (nd_shape a) -> flat a p = flat b p) ->
+  setup_weights e size svd a = VOk ra -> setup_weights e size svd b = VOk rb ->
+  nd_shape ra = nd_shape rb /\ forall p, 0 <= p < prodZ (nd_shape a) -> flat ra p = flat rb p.
+Proof. exact per_point_same_2d. Qed.
+Print Assumptions C16_per_point_2d.
+
+(* for every M, N: (M, N) weights are accepted and the flattened array is the ROW-MAJOR sequence of the logical
+   entries, w'[i*N + j] = W[i][j], whatever the memory layout; 1-D weights of the three shape classes arrive as
+   their flat sequence, cast to the setup's dtype *)
+Theorem C16_per_point_values : forall e svd (a : nd Z) m n i j,
+  (su_ensure_1d e = false -> su_axis e = AxAll -> nd_shape a = [m; n] ->
+     setup_weights e [m; n] svd a = VOk (apply_flat (su_flat e) svd (map_nd (wcast (su_dtype e)) a)))
+  /\ (nd_shape a = [m; n] -> 0 <= i < m -> 0 <= j < n ->
+        nd_shape (ravel a) = [m * (n * 1)] /\ nd_at (ravel a) [i * n + j] = nd_at a [i; j])
+  /\ (su_ensure_1d e = true -> su_axis e = AxLast -> su_flat e = FlNone ->
+        nd_shape a = [n] \/ nd_shape a = [n; 1] \/ nd_shape a = [1; n] ->
+        exists ra, setup_weights e [n] svd a = VOk ra /\ nd_shape ra = [n]
+                   /\ forall p, nd_at ra [p] = wcast (su_dtype e) (flat a p)).
+Proof.
+  intros e svd a m n i j. split; [|split].
+  - exact (setup_weights_2d_value e svd a m n).
+  - exact (ravel_row_major a m n i j).
+  - exact (setup_weights_1d_value e svd a n).
+Qed.
+Print Assumptions C16_per_point_values.
+
+(* the table of the eight _setup_* functions translated from the current source passes the check (dtype fixed by
+   the setup, C-order ravel only, expected flags), and both _register.inner bodies have the modelled shape *)
+Theorem C16_setups_table :
+  setups_ok setups = true /\ inner_shapes_ok inner_shape_1d inner_shape_2d = true.
+Proof. exact setups_checked. Qed.
+Print Assumptions C16_setups_table.
+
+Theorem C16_setups_table_sound : forall e, In e setups ->
+  forall size svd (a b ra rb : nd Z),
+    setup_weights e size svd a = VOk ra -> setup_weights e size svd b = VOk rb ->
+    (su_two_d e = false -> same_den a b ->
+       nd_shape ra = nd_shape rb /\ forall p, 0 <= p < prodZ (nd_shape a) -> flat ra p = flat rb p)
+    /\ (su_two_d e = true -> nd_shape a = nd_shape b ->
+        (forall p, 0 <= p < prodZ (nd_shape a) -> flat a p = flat b p) ->
+        nd_shape ra = nd_shape rb /\ forall p, 0 <= p < prodZ (nd_shape a) -> flat ra p = flat rb p).
+Proof. exact table_per_point. Qed.
+Print Assumptions C16_setups_table_sound.
+
+(* ---- the inner(self, data=None, *args, **kwargs) layer of _register ---- *)
+
+(* a call that binds on the method's own signature binds identically through inner + func(self, y, *args, **kwargs),
+   with `data` replaced by the validated array y = yof data (data positional, by keyword, or absent) *)
+Theorem C16_register_transparent : forall (V : Type) (yof : option V -> V) (ms : sig) (margs : list V)
+    (mkw : list (string * V)) (mb : bound),
+  NoDup (names (s_params ms)) ->
+  (exists p r, s_params ms = p :: r /\ p_name p = "data"%string) ->
+  bind ms margs mkw = Some mb ->
+  exists mb', register_call yof ms margs mkw = Some mb'
+    /\ (forall n, b_get mb' n = if String.eqb n "data" then Some (yof (b_get mb "data"%string)) else b_get mb n)
+    /\ b_extra mb' = b_extra mb.
+Proof. exact @register_transparent. Qed.
+Print Assumptions C16_register_transparent.
+
+(* whole path for every module-level function of the current source, every call shape *)
+Theorem C16_full_path : forall (V : Type) (yof : option V -> V) e, In e sigs ->
+  exists ms, e_meth e = Some ms /\
+  forall (pos : list V) (kw : list (string * V)) (b : bound),
+    bind (e_func e) pos kw = Some b ->
+    exists margs mkw mb',
+      wrapper (e_func e) pos kw = WCall (b_get b X) margs mkw
+      /\ register_call yof ms margs mkw = Some mb'
+      /\ (forall n, b_get mb' n = if String.eqb n "data" then Some (yof (b_get b "data"%string))
+                                 else if String.eqb n X then None else b_get b n)
+      /\ b_extra mb' = b_extra b.
+Proof. exact @table_full_path. Qed.
+Print Assumptions C16_full_path.
+
 (* ---- hypotheses are satisfiable ---- *)
 Open Scope string_scope.
 Example C16_sig_ok_nonvacuous :
@@ -183,3 +272,16 @@ Proof. vm_compute. repeat split; reflexivity. Qed.
 Example C16_get_method_nonvacuous :
   get_method ["asls"; "poly"] "AsLS" = Some "asls" /\ get_method ["asls"] "nope" = None.
 Proof. vm_compute. split; reflexivity. Qed.
+
+(* a Fortran-ordered (2, 3) weight array  [[1,2,3],[4,5,6]]  (memory 1,4,2,5,3,6) reaches the polynomial body as 1..6 *)
+Example C16_setup_weights_nonvacuous :
+  let e := {| su_two_d := true; su_name := "_setup_polynomial"; su_size_is_shape := true; su_dtype := WFloat;
+              su_order := ONone; su_ensure_1d := false; su_axis := AxAll; su_sort := true; su_flat := FlRavelC |} in
+  let d := {| d_cont := CArray; d_layout := LF; d_dtype := I64; d_shape := [2; 3]%Z;
+              d_mem := fun o => nth (Z.to_nat o) [1; 4; 2; 5; 3; 6]%Z 0%Z |} in
+  setup_ok e = true /\
+  match setup_weights e [2; 3]%Z false (as_nd d) with
+  | VOk r => nd_shape r = [6]%Z /\ map (flat r) [0; 1; 2; 3; 4; 5]%Z = [1; 2; 3; 4; 5; 6]%Z
+  | _ => False
+  end.
+Proof. vm_compute. repeat split; reflexivity. Qed.
